@@ -121,13 +121,30 @@ func (g *DirectedTargetGraph) GetDependencies(target model.BuildNode) []model.Bu
 	return g.inEdges[target.GetLabel()]
 }
 
+// GetTargetDependencies returns the targets that the given node directly depends on.
+// A dependency declared through an alias (or a chain of aliases) is a dependency
+// on the target that the alias points to.
 func (g *DirectedTargetGraph) GetTargetDependencies(node model.BuildNode) []*model.Target {
 	var targets []*model.Target
-	for _, dependency := range g.GetDependencies(node) {
-		if target, ok := dependency.(*model.Target); ok {
-			targets = append(targets, target)
+	visited := make(map[label.TargetLabel]struct{})
+
+	var collect func(current model.BuildNode)
+	collect = func(current model.BuildNode) {
+		for _, dependency := range g.GetDependencies(current) {
+			if _, seen := visited[dependency.GetLabel()]; seen {
+				continue
+			}
+			visited[dependency.GetLabel()] = struct{}{}
+
+			if target, ok := dependency.(*model.Target); ok {
+				targets = append(targets, target)
+				continue
+			}
+			collect(dependency)
 		}
 	}
+	collect(node)
+
 	return targets
 }
 
